@@ -46,13 +46,20 @@ pub async fn on_document_selection_range_handle(
 
         for ancestor in token.parent_ancestors() {
             let range = ancestor.text_range();
-            // selection ranges must strictly grow: skip a node that covers exactly
-            // the same text as the previous entry (e.g. Block and Chunk)
-            if ranges.last() == Some(&range) {
-                continue;
-            }
             ranges.push(range);
         }
+
+        // selection ranges must strictly grow outward: keep a range only if it properly
+        // contains the previous one (Block and Chunk cover the same text; markup items
+        // inside a description need not be nested)
+        let mut nested: Vec<TextRange> = Vec::with_capacity(ranges.len());
+        for range in ranges {
+            match nested.last() {
+                Some(last) if !(range.contains_range(*last) && range != *last) => {}
+                _ => nested.push(range),
+            }
+        }
+        let ranges = nested;
 
         let mut parent: Option<Box<SelectionRange>> = None;
         for range in ranges.into_iter().rev() {
